@@ -5,6 +5,7 @@ package main
 
 import (
 	"go/types"
+	"os"
 	"strings"
 
 	"golang.org/x/tools/go/ssa"
@@ -227,6 +228,27 @@ func init() {
 	models["(*sync.RWMutex).Unlock"] = models["(*sync.Mutex).Lock"]
 	models["(*sync.RWMutex).RLock"] = models["(*sync.Mutex).Lock"]
 	models["(*sync.RWMutex).RUnlock"] = models["(*sync.Mutex).Lock"]
+	// read-only file access for translator-validation vectors: the repository's own data
+	// files, resolved relative to the harness package directory (as `go test` does)
+	readFile := func(p *Path, fn *ssa.Function, a []Value) Value {
+		name := concreteString(a[0], "file name")
+		full := name
+		if !strings.HasPrefix(name, "/") {
+			full = repoDir + "/" + p.harnessRel + "/" + name
+		}
+		b, err := os.ReadFile(full)
+		if err != nil {
+			return Tuple{Slice{}, Iface{T: nativeErrorType, V: &Native{V: err}}}
+		}
+		out := make([]Value, len(b))
+		for i, c := range b {
+			out[i] = int64(c)
+		}
+		p.stubsHit["os.ReadFile (read-only, repository data files in selftests)"] = true
+		return Tuple{Slice{A: out}, Iface{}}
+	}
+	models["io/ioutil.ReadFile"] = readFile
+	models["os.ReadFile"] = readFile
 	models["bytes.Equal"] = func(p *Path, fn *ssa.Function, a []Value) Value { return p.strEq(sliceStr(a[0]), sliceStr(a[1])) }
 	models["bytes.ToUpper"] = func(p *Path, fn *ssa.Function, a []Value) Value { return strSliceVal(p.mapCase(sliceStr(a[0]), true)) }
 	models["bytes.ToLower"] = func(p *Path, fn *ssa.Function, a []Value) Value { return strSliceVal(p.mapCase(sliceStr(a[0]), false)) }
